@@ -105,6 +105,15 @@ def purity(sf, st, backend):
 
 def check_physical(ctx, sf, spec, backend, rp):
     try:
+        return _check_physical(ctx, sf, spec, backend, rp)
+    except Exception as e:  # noqa: BLE001  (an exception while inspecting a returned state is a failing input)
+        ctx.fail(f"evaluation-raises:{backend}:{type(e).__name__}", f"inspecting the state returned by {backend} raised "
+                 f"{type(e).__name__}: {e}", rp)
+        return None
+
+
+def _check_physical(ctx, sf, spec, backend, rp):
+    try:
         st = run_backend(sf, spec, backend)
     except NotImplementedError:
         ctx.tally("skipped:not-implemented")
@@ -140,6 +149,9 @@ def check_conservation(ctx, sf, prefix, op, n, backend, kind):
     try:
         d, loss = measure(cutoff)
     except NotImplementedError:
+        return
+    except Exception as e:  # noqa: BLE001
+        ctx.fail(f"evaluation-raises:{backend}:{op['cls']}:{type(e).__name__}", f"{backend} raised {type(e).__name__}: {e}", rp)
         return
     ctx.oracle_cases += 1
     fock = backend.startswith("fock")
